@@ -20,6 +20,9 @@ type r3tok struct {
 }
 
 func isDigit(c byte) bool { return c >= '0' && c <= '9' }
+func isHexDigit(c byte) bool {
+	return isDigit(c) || (c >= 'a' && c <= 'f') || (c >= 'A' && c <= 'F')
+}
 func isIdent(c byte) bool {
 	return c == '_' || c == '.' || (c >= 'a' && c <= 'z') || (c >= 'A' && c <= 'Z') || isDigit(c)
 }
@@ -140,6 +143,14 @@ func prevByte(s string, pos int) byte {
 
 func r3number(s string, pos int) int {
 	j := pos
+	if j+2 < len(s) && s[j] == '0' && (s[j+1] == 'x' || s[j+1] == 'X') && isHexDigit(s[j+2]) {
+		// a hexadecimal literal: its digits include e, which is not an exponent marker here
+		j += 2
+		for j < len(s) && (isHexDigit(s[j]) || s[j] == '_') {
+			j++
+		}
+		return j
+	}
 	for j < len(s) && (isDigit(s[j]) || s[j] == '_') {
 		j++
 	}
@@ -187,7 +198,8 @@ func (p *r3parser) lbp() int {
 
 func renderNum(t string) string {
 	clean := strings.ReplaceAll(t, "_", "")
-	if strings.ContainsAny(clean, ".eE") {
+	isHex := len(clean) > 2 && clean[0] == '0' && (clean[1] == 'x' || clean[1] == 'X')
+	if !isHex && strings.ContainsAny(clean, ".eE") {
 		f, err := strconv.ParseFloat(clean, 64)
 		if err != nil {
 			return t
@@ -196,6 +208,12 @@ func renderNum(t string) string {
 			return strconv.FormatFloat(f, 'e', -1, 64)
 		}
 		return strconv.FormatFloat(f, 'f', -1, 64)
+	}
+	if len(clean) > 2 && clean[0] == '0' && (clean[1] == 'x' || clean[1] == 'X') {
+		if v, err := strconv.ParseInt(clean[2:], 16, 64); err == nil {
+			return strconv.FormatInt(v, 10)
+		}
+		return t
 	}
 	if v, err := strconv.ParseInt(clean, 10, 64); err == nil {
 		return strconv.FormatInt(v, 10)
